@@ -179,7 +179,7 @@ pub fn run(ctx: &Ctx, rec: &mut Rec) {
     let gs = gadgets();
     let mut zrng = rng_for(ctx.seed, "C14-tamper", 999, 0);
     let zoo = elements_for_gadgets(ctx, &mut zrng, ctx.scale(8, 40));
-    for k in ["bool-flip", "bit-run+p", "bit-run-p", "bit-run-single-flip", "field-neg", "field-zero", "field-one", "field-plus-one", "field-zeta", "field-random"] {
+    for k in ["isqrt-pair", "bool-flip", "bit-run+p", "bit-run-p", "bit-run-single-flip", "field-neg", "field-zero", "field-one", "field-plus-one", "field-zeta", "field-random"] {
         rec.declare_class(&format!("tamper:{k}"));
     }
     let mut work: Vec<(usize, Inp, String)> = Vec::new();
@@ -211,14 +211,14 @@ pub fn run(ctx: &Ctx, rec: &mut Rec) {
             // honest synthesis with pinned outputs
             rec.form(&form);
             // witness indices of every isqrt hint pair (was_square, y) and the denominator it saw
-            let isqrt_sites: std::sync::Arc<std::sync::Mutex<Vec<(usize, bool)>>> = Default::default();
+            let isqrt_sites: std::sync::Arc<std::sync::Mutex<Vec<(usize, Fq, Fq)>>> = Default::default();
             let sites2 = isqrt_sites.clone();
             let built = guarded(|| -> Result<(Sys, Pinned, Vec<usize>, CS), String> {
                 INPUT_WITS.with(|v| v.borrow_mut().clear());
                 let cs = new_cs(false);
                 let cs_obs = cs.clone();
                 decaf377::r1cs::verif_hooks::set_isqrt_hint_override(Some(Box::new(move |_idx, den, flag, y| {
-                    sites2.lock().unwrap().push((cs_obs.num_witness_variables(), den == Fq::ZERO));
+                    sites2.lock().unwrap().push((cs_obs.num_witness_variables(), den, y));
                     (flag, y)
                 })));
                 let r = (g.run)(&cs, &inp2);
@@ -320,6 +320,24 @@ pub fn run(ctx: &Ctx, rec: &mut Rec) {
                     }
                 }
             }
+            // isqrt hint pairs at the constraint level: the re-synthesis of (a) runs the honest prover
+            // code, which panics inside arkworks (`Affine::new` asserts on-curve) as soon as a substituted
+            // hint drives an intermediate point off the curve; a malicious prover is not bound by that
+            // code, so the same substitutions are replayed here on the executed constraint system
+            let sites_now = isqrt_sites.lock().unwrap().clone();
+            for (k, (w0, den, hy)) in sites_now.iter().enumerate() {
+                if sys.ninst + w0 + 1 >= nz {
+                    continue;
+                }
+                let rnd = [crate::zoo::rand_below(&mut rng, pm)];
+                for (flag, y, ycl) in crate::c14::candidates(ctx, &fqb(den), &fqb(hy), &rnd) {
+                    tampers.push(Tamper {
+                        kind: "isqrt-pair",
+                        set: vec![(sys.ninst + w0, if flag { Fq::ONE } else { Fq::ZERO }), (sys.ninst + w0 + 1, fq(&y))],
+                        desc: format!("isqrt#{k}:den{}0:hint=({flag},{ycl})", if den.is_zero() { "=" } else { "!=" }),
+                    });
+                }
+            }
             // ---- apply
             for t in tampers {
                 rec.form(&form);
@@ -333,6 +351,7 @@ pub fn run(ctx: &Ctx, rec: &mut Rec) {
                 }
                 for (u, v) in &t.set {
                     z2[*u] = *v;
+                    kn[*u] = true; // a tampered witness stays as set even when propagation could re-derive it
                 }
                 sys.propagate(&mut z2, &mut kn);
                 if !sys.satisfied(&z2) {
@@ -360,10 +379,9 @@ pub fn run(ctx: &Ctx, rec: &mut Rec) {
                         // is this the known isqrt family (den = 0, hint ends up as (true, y^2 = 1), input s = q-1)?
                         let sites = isqrt_sites.lock().unwrap().clone();
                         let known_family = class.split('|').any(|c| c == "s=q-1")
-                            && t.set.len() == 1
-                            && sites.iter().any(|(w0, den0)| {
+                            && sites.iter().any(|(w0, den, _)| {
                                 let (wf_, wy) = (sys.ninst + w0, sys.ninst + w0 + 1);
-                                *den0 && (t.set[0].0 == wf_ || t.set[0].0 == wy) && z2[wf_] == Fq::ONE && z2[wy] * z2[wy] == Fq::ONE
+                                den.is_zero() && t.set.iter().all(|(u, _)| *u == wf_ || *u == wy) && z2[wf_] == Fq::ONE && z2[wy] * z2[wy] == Fq::ONE
                             });
                         let sig = if known_family {
                             format!("{P}:satisfied-but-native-rejects:input-encoding=s=q-1:isqrt:den=0:hint=(true,y^2=1)")
@@ -381,6 +399,10 @@ pub fn run(ctx: &Ctx, rec: &mut Rec) {
                             };
                             if ok {
                                 rec.count("tampers_satisfied_output_preserved", 1);
+                            } else if g.name == "isqrt" && t.kind == "isqrt-pair" && t.desc.contains("den=0:hint=(true,y^2=1)") {
+                                // the primitive itself: the other known signature of the den = 0 family
+                                rec.violation(format!("{P}:wrong-output-under-hint:site=isqrt:isqrt#0:den=0:hint=(true,y^2=1)"),
+                                    format!("isqrt(0) under the hint (true, +-1), replayed on the executed constraint system: {}", t.desc), detail);
                             } else {
                                 rec.violation(format!("{P}:r1cs-tamper:wrong-output:{}:{}", g.name, t.kind),
                                     format!("gadget `{}` stays satisfied under a tampered witness assignment but its output changes: {}", g.name, t.desc), detail);
